@@ -94,7 +94,7 @@ theorem nest_crash (s : State) (w : String) : Nest s (s.crash w) := by
 
 theorem nest_count (cfg : Cfg) (s : State) (t : Int) : Nest s (countMsg cfg s t) := by
   unfold countMsg; split
-  · exact Nest.refl s
+  · exact nest_same rfl rfl rfl rfl rfl rfl rfl rfl ⟨[], by simp, by simp⟩
   · exact nest_same rfl rfl rfl rfl rfl rfl rfl rfl ⟨[], by simp, by simp⟩
 
 /-- an update that leaves everything but the two counters alone -/
@@ -380,17 +380,17 @@ theorem sendActive_nest (cfg : Cfg) (s : State) : Nest s (sendActive cfg s) := b
 
 theorem ticks_nest (cfg : Cfg) (s : State) : Nest s (ticks cfg s) := by
   unfold ticks
-  have h1 : Nest s (if cfg.timing && s.now - s.tTiming > 900 then { sendTiming cfg s with tTiming := s.now } else s) := by
+  have h1 : Nest s (if cfg.timing && s.now - s.tTiming > cfg.pTiming then { sendTiming cfg s with tTiming := s.now } else s) := by
     split
     · exact (sendTiming_nest cfg s).trans (nest_stats rfl rfl rfl rfl rfl rfl rfl rfl)
     · exact Nest.refl s
-  generalize (if cfg.timing && s.now - s.tTiming > 900 then { sendTiming cfg s with tTiming := s.now } else s) = s1 at h1
+  generalize (if cfg.timing && s.now - s.tTiming > cfg.pTiming then { sendTiming cfg s with tTiming := s.now } else s) = s1 at h1
   dsimp only
-  have h2 : Nest s (if s1.now - s1.tTraffic > 1000 then sendTraffic cfg s1 else s1) := by
+  have h2 : Nest s (if s1.now - s1.tTraffic > cfg.pTraffic then sendTraffic cfg s1 else s1) := by
     split
     · exact h1.trans (sendTraffic_nest cfg s1)
     · exact h1
-  generalize (if s1.now - s1.tTraffic > 1000 then sendTraffic cfg s1 else s1) = s2 at h2
+  generalize (if s1.now - s1.tTraffic > cfg.pTraffic then sendTraffic cfg s1 else s1) = s2 at h2
   split
   · exact h2.trans (sendActive_nest cfg s2)
   · exact h2
